@@ -158,8 +158,47 @@ def build_gen(case):
     return stmts, expect
 
 
+JCOMPS = [("Id_1", "Integer", "Identifier", False), ("Me_1", "Number", "Measure", True), ("Me_2", "Number", "Measure", True)]
+JNAMES = ["d1", "d2", "DS_a", "DS_b", "DS_c", "DS_d"]
+
+
+def gen_join_case(rng):
+    """statements whose join aliases collide with each other and with dataset names produced elsewhere in the script"""
+    n = rng.randint(2, 5)
+    names = rng.sample(JNAMES, n)
+    stmts = []
+    avail = ["IN_1", "IN_2"]
+    for j, nm in enumerate(names):
+        x, y = rng.choice(avail), rng.choice(avail)
+        a1, a2 = rng.choice(["d1", "d2", "a"]), rng.choice(["d2", "b", "d1"])
+        if a1 == a2:
+            a2 = "zz"
+        arrow = rng.choice(["<-", "<-", ":="])
+        kind = rng.random()
+        if kind < 0.55 and x != y:
+            body = rng.choice([
+                f"inner_join({x} as {a1}, {y} as {a2} keep {a1}#Me_1, {a2}#Me_2)",
+                f"left_join({x} as {a1}, {y} as {a2} keep {a1}#Me_2, {a2}#Me_1)",
+                f"inner_join({x} as {a1}, {y} as {a2} drop {a1}#Me_1, {a2}#Me_2)",
+                f"inner_join({x} as {a1}, {y} as {a2} rename {a1}#Me_1 to Me_8, {a2}#Me_1 to Me_9 keep Me_8, Me_9)[rename Me_8 to Me_1, Me_9 to Me_2]",
+                f"inner_join({x} as {a1}, {y} as {a2} calc Me_7 := {a1}#Me_1 + {a2}#Me_1 keep Me_7, {a1}#Me_2)[rename Me_7 to Me_1]",
+            ])
+        elif kind < 0.8:
+            body = f"{x} * {j + 2}"
+        else:
+            body = f"{x}[calc Me_1 := Me_1 + {j + 1}]"
+        stmts.append(f"{nm} {arrow} {body}")
+        avail.append(nm)
+    return {"kind": "joins", "stmts": stmts, "ni": 2}
+
+
 def run_gen(case, emit, rng, tier):
     from vf import eng
+    if case["kind"] == "joins":
+        st = eng.structures(*[eng.mkds(f"IN_{i + 1}", JCOMPS) for i in range(2)])
+        dfs = {f"IN_{i + 1}": eng.mkdf(["Id_1", "Me_1", "Me_2"], [(k, float(i * 10 + k), float(100 * (i + 1) + k)) for k in (1, 2, 3)]) for i in range(2)}
+        compare_orders(case["stmts"], {"data_structures": st, "datapoints": dfs}, {"data_structures": st}, "gen:joins", emit, rng, tier, {"gen": case})
+        return
     stmts, expect = build_gen(case)
     ni = case["ni"]
     st = eng.structures(*[eng.mkds(f"IN_{i + 1}", COMPS) for i in range(ni)])
@@ -198,6 +237,7 @@ def run_shard(spec, emit):
         if not bud.ok():
             break
         run_gen(gen_case(rng), emit, rng, spec["tier"])
+        run_gen(gen_join_case(rng), emit, rng, spec["tier"])
     for c in rider.corpus_slice(spec, quick_fraction=6, tag="C12"):
         if not bud.ok():
             emit({"v": "inc", "why": "cut by wall-clock budget"})
